@@ -4,7 +4,7 @@
 SLOT=20; if [ "$1" = "-s" ]; then SLOT=$2; shift 2; fi
 R=/tmp/seedrepo/r$SLOT; O=/tmp/seedrepo/v$SLOT; S=/tmp/seedrepo/snap$SLOT
 rm -rf $S $O; mkdir -p $S
-rsync -a --exclude .git --exclude replays --exclude bin --exclude seeded --exclude 'mc/go.alt.*' /verif/ $S/
+rsync -a --exclude .git --exclude replays --exclude bin --exclude seeded --exclude 'mc/go.alt.*' ${OWN_SRC:-/verif}/ $S/
 git -C /repo worktree remove --force $R 2>/dev/null; git -C /repo worktree prune; git -C /repo worktree add --detach $R HEAD >/dev/null 2>&1
 for sid in "$@"; do
   prop=${sid%%-*}
